@@ -94,6 +94,12 @@ def run(case, st):
     try:
         exp, it = E.run(p)
     except (E.OutOfModel, E.TeXError) as e:
+        if 'unbraced-parameter-argument' in case.get('features', ()):
+            # what an unbraced parameter stands for decides whether the call it is handed to is still well-formed (it may be empty,
+            # or a macro that wants arguments of its own): a program TeX itself rejects is outside the quantifier
+            st.outcomes['precondition_skip'] += 1
+            st.counters['skip:unbraced-parameter-makes-program-ill-formed'] += 1
+            return {}
         st.outcomes['harness_error'] += 1
         st.notes['reference-rejects-program: %r: %s' % (e, p[:300])] += 1
         return {}
